@@ -3,7 +3,7 @@
    <id> FP <n> <x> <lister> <nf> <filters> <nodes> [#replay]      opts.FindPredecessors(x)
    <id> FE <n> <limit> <start> <lister> <k> <nf> <filters> <nodes> [#replay]   findRoots, k-th source operation fails
    <id> AT <kind> <hexmat> <hexmcfg>                              fetchArtifactType
-   <id> XC <resolves> <graphok> <tagok> <hexsrcref> <hexdstref>   ExtendedCopy wrapper
+   <id> XC <resolves> <rootsok> <copyok> <tagok> <hexsrcref> <hexdstref>   ExtendedCopy wrapper (result or error origin)
    filters: A0 | A <table> | N0 <hexkey> | N <hexkey> <table>;  table: hex=0|1,... or _
    node:    <kind> <hexmat> <hexmcfg> <ann> <np> (<pid> <hexat> <ann>)*
    ann:     ~ (nil) | @ (empty) | hexk=hexv;hexk=hexv *)
@@ -124,12 +124,15 @@ let () =
     | [id; "AT"; kd; mat; mcfg] ->
       let src = source_of [ (kind_of kd, str_of_hex mat, str_of_hex mcfg, None, []) ] false in
       Printf.printf "%s T %s\n" id (hex_of_str (fetch_artifact_type src O))
-    | [id; "XC"; res; gok; tok; sref; dref] ->
+    | [id; "XC"; res; rok; gok; tok; sref; dref] ->
       let node = { d_id = nat_of_int 7; d_at = []; d_ann = None } in
       let resolve r = if res = "1" && r = str_of_hex sref then Some node else None in
-      (match extended_copy resolve (fun _ -> gok = "1") (tok = "1") (str_of_hex sref) (str_of_hex dref) [] with
-       | None -> Printf.printf "%s ERR\n" id
-       | Some (d, tags) ->
+      (match extended_copy_x resolve (rok = "1") (gok = "1") (tok = "1") (str_of_hex sref) (str_of_hex dref) [] with
+       | XErr OpResolve -> Printf.printf "%s ERR Resolve/source\n" id
+       | XErr OpFindPredecessors -> Printf.printf "%s ERR FindPredecessors/source\n" id
+       | XErr OpCopy -> Printf.printf "%s ERR copy\n" id
+       | XErr OpTag -> Printf.printf "%s ERR Tag/destination\n" id
+       | XOk (d, tags) ->
          Printf.printf "%s OK %s\n" id
            (String.concat "," (List.map (fun (k, v) -> hex_of_str k ^ "=" ^ string_of_int (int_of_nat v)) tags)))
     | [] -> ()
